@@ -247,6 +247,17 @@ func core() []item {
 	add("map", types.NewMap(str("a"), types.NewInt(1)))
 	add("map", types.NewMap(str("b"), types.NewInt(1)))
 	add("map:mutable", mutMap(str("a"), types.NewInt(1)))
+	// a slice that is the result of a growing Append (its backing array may have spare capacity) and a
+	// sibling appended to it: a later Append on the shared parent must not reach into the sibling
+	// (seeded change c14f made Append alias the parent's array)
+	{
+		grown := types.NewSlice(types.NewInt(1), types.NewInt(2), types.NewInt(3)).Append(types.NewInt(4))
+		add("slice:grown", grown)
+		add("slice:grown-sibling", grown.Append(str("e")))
+		grown2 := types.NewSlice(str("a")).Append(str("b")).Append(str("c"))
+		add("slice:grown", grown2)
+		add("slice:grown-sibling", grown2.Append(types.NewSlice(types.NewInt(1))))
+	}
 	return xs
 }
 
@@ -526,6 +537,9 @@ func derive(c *lib.Ctx, r *lib.RNG, pool []item) string {
 				mm.Clear()
 				c.Hit("derive:map")
 			case types.Slice:
+				_ = x.Append(str("sibling-1"))
+				_ = x.Append(str("sibling-2"), types.NewInt(3))
+				_ = x.Prepend(str("front"))
 				d := x.Append(types.NewInt(1)).Prepend(types.NewInt(2))
 				if x.Len() > 0 {
 					d = x.Set(0, str("changed"))
